@@ -664,6 +664,12 @@ impl Format for AuthSecretFile {
         uri: Option<&String>,
         text: &str,
     ) -> Result<Map<String, Value>, Box<dyn std::error::Error + Send + Sync>> {
+        // the file arrives as text: bytes that are not UTF-8 were replaced on the way, the secret
+        // in use would silently be another one than the configured (shared by many such files)
+        if text.contains(char::REPLACEMENT_CHARACTER) {
+            return Err("the auth secret file has to be valid UTF-8".into());
+        }
+
         let mut result = Map::new();
 
         result.insert(
